@@ -7,6 +7,7 @@ import (
 	"context"
 	"net/http"
 	"net/http/httptest"
+	"net/url"
 	"regexp"
 	"runtime"
 	"sort"
@@ -48,6 +49,10 @@ type ReqT struct {
 	// recorded what it saw and set the status; the caller of ServeHTTP recovers, as net/http does. What
 	// the handler saw stands; the requests served afterwards on the same router must not notice.
 	PanicIn bool `json:",omitempty"`
+	// Raw: a spelling of Path as a request target with some bytes percent-escaped that need not be; it is
+	// put into URL.RawPath (URL.Path stays the decoded Path, as net/http sets both). Routing is on Path:
+	// not part of the case tokens.
+	Raw string `json:",omitempty"`
 }
 
 // OverlapT: Req is served while another request is in flight on the same router (two goroutines,
@@ -463,6 +468,11 @@ func (s *Session) serve(q ReqT, h *reqHook) (o ObsT) {
 	req := httptest.NewRequest(q.Method, "/", nil)
 	req.URL.Path = q.Path
 	req.URL.RawPath = ""
+	if q.Raw != "" {
+		if u, err := url.PathUnescape(q.Raw); err == nil && u == q.Path {
+			req.URL.RawPath = q.Raw
+		}
+	}
 	if s.c.Eng.Version != "" {
 		req.Header.Set("X-API-Version", s.c.Eng.Version)
 	}
